@@ -81,10 +81,11 @@ def coq_files():
     return [os.path.relpath(f, COQ) for f in fs if "/.cache/" not in f]
 
 
-def coq_hygiene():
-    """Return list of problems (forbidden commands, axioms outside sections)."""
+def coq_hygiene(files=None):
+    """Return list of problems (forbidden commands, axioms outside sections) in the given
+    files (default: the whole development)."""
     bad = []
-    for rel in coq_files():
+    for rel in (files if files is not None else coq_files()):
         src = strip_comments(open(os.path.join(COQ, rel)).read())
         for pat in FORBIDDEN:
             for m in re.finditer(pat, src):
@@ -429,7 +430,7 @@ class Run:
 def prove(run, prop_dir_files, props_rel, allow=(), extra_targets=()):
     """Standard proof step: hygiene, build, Print Assumptions audit.
     Returns (ok, log).  On failure nothing is reported here; caller decides (search for witness)."""
-    bad = coq_hygiene()
+    bad = coq_hygiene(sorted(set(list(prop_dir_files) + [props_rel] + [f for f in coq_files() if f.startswith("Common/")])))
     if bad:
         run.broken.append("coq hygiene: " + "; ".join(bad[:5]))
         return False, "\n".join(bad)
